@@ -66,13 +66,37 @@ Proof.
   apply Z.max_r. apply (blocks_for_bounds fno _ Hn Hf).
 Qed.
 
-Theorem xo_call_safe (s : ST) wi wo m :
+(** the two per-channel passes of process_into_buffer, named *)
+Definition xo_f1 (fin fout nd sv : Z) : list (@snum CR SR) * list (@snum CR SR) * list (@snum CR SR) ->
+                                        @res CR (list (@snum CR SR) * list (@snum CR SR) * list (@snum CR SR)) :=
+  fun '(wi0, ob, ov) =>
+    if negb (in_range wi0 0 nd) then Panic PSliceIndex else
+    if negb (in_range ob sv (zlen ob)) then Panic PSliceIndex else
+    if (fin =? 0) || (fout =? 0) then Panic PChunkZero else
+    do r <- run_units unit_fn fin fout (chunks fin (slice wi0 0 nd)) (chunks fout (skipn (Z.to_nat sv) ob)) ov;
+    let '(obs, ov') := r in Ok (wi0, firstn (Z.to_nat sv) ob ++ concat obs, ov').
+
+Definition xo_f2 (Co sv' : Z) : list (@snum CR SR) * list (@snum CR SR) -> @res CR (list (@snum CR SR) * list (@snum CR SR)) :=
+  fun '(wo0, ob) =>
+    if negb (in_range wo0 0 Co) || negb (in_range ob 0 Co) then Panic PSliceIndex else
+    if negb (Co =? Co) then Panic PCopyLen else
+    match copy_within ob Co (Co + sv') 0 with
+    | None => Panic PSliceIndex
+    | Some ob' => Ok (slice ob 0 Co ++ skipn (Z.to_nat Co) wo0, ob')
+    end.
+
+Theorem xo_call_stages (s : ST) wi wo m :
   xo_wf s ->
   @x_precheck CR SR (xo_mask_bad (fs_ctl s)) (xo_val_channels (fs_ctl s)) (xo_val_min_in (fs_ctl s))
               (xo_val_min_out (fs_ctl s)) (fs_mask s) wi wo m = Ok tt ->
-  exists s' outs, @xo_pib CR SR unit_fn s wi wo m = Ok (s', (oneed s, oCo s), outs) /\ xo_wf s' /\
-                  osaved s' + oCo s = osaved s + (oneed s / ofin s) * ofout s /\
-                  ofin s' = ofin s /\ ofout s' = ofout s /\ oCo s' = oCo s /\ onc s' = onc s.
+  exists s' outs mask r1 r2,
+    @xo_pib CR SR unit_fn s wi wo m = Ok (s', (oneed s, oCo s), outs) /\ xo_wf s' /\
+    osaved s' + oCo s = osaved s + (oneed s / ofin s) * ofout s /\
+    ofin s' = ofin s /\ ofout s' = ofout s /\ oCo s' = oCo s /\ onc s' = onc s /\
+    @prologue CR (xo_mask_bad (fs_ctl s)) (xo_val_channels (fs_ctl s)) (fs_mask s) m = Ok mask /\
+    @per_channel CR _ (xo_f1 (ofin s) (ofout s) (oneed s) (osaved s)) (zip3 wi (fs_bufs s) (fs_overlaps s)) mask = Ok r1 /\
+    @per_channel CR _ (xo_f2 (oCo s) (osaved s')) (combine wo (map (fun x => snd (fst x)) r1)) mask = Ok r2 /\
+    fs_overlaps s' = map (fun x => snd x) r1 /\ outs = map fst r2 /\ fs_bufs s' = map snd r2.
 Proof.
   intros W Hpre. unfold x_precheck in Hpre. unfold xo_pib.
   destruct W as [Wfin Wfout WCo Wn Wsv Wnd Wbn Wb Won Wo Wm Wu].
@@ -165,7 +189,7 @@ Proof.
   unfold xo_frames_needed_out, xo_input_frames_used, xo_frames_needed_next. rewrite P1c, P1s.
   assert (Efno : (if Co >? sv' then Co - sv' else 0) = Z.max (Co - sv') 0) by (destruct (Z.gtb_spec Co sv'); lia).
   rewrite Efno. rewrite chunks_needed_R by (rewrite ?P1o; lia). rewrite P1o, P1i.
-  eexists _, _. split; [unfold xo_ret_in, xo_ret_out; cbn [FftFixedOut_chunk_size_out FftFixedOut_frames_needed set_FftFixedOut_frames_needed set_FftFixedOut_saved_frames]; fold st nd Co; reflexivity|].
+  eexists _, _, mask, r1, r2. split; [unfold xo_ret_in, xo_ret_out; cbn [FftFixedOut_chunk_size_out FftFixedOut_frames_needed set_FftFixedOut_frames_needed set_FftFixedOut_saved_frames]; fold st nd Co; reflexivity|].
   assert (Lr2 : length r2 = Z.to_nat nch) by (rewrite (F2_length _ _ _ F2), combine_length; unfold bufs1; rewrite map_length; lia).
   split.
   - constructor; unfold ofin, ofout, oCo, onc, osaved, oneed; cbn [fs_ctl fs_bufs fs_overlaps fs_mask];
@@ -177,10 +201,24 @@ Proof.
       destruct (F2_nth_r _ _ _ F2 j _ Hj) as ([o0 b0] & Hj0 & _ & Hz). cbn [fst snd] in Hz. rewrite Hz.
       destruct (combine_nth _ _ _ _ _ Hj0) as (_ & Kb). rewrite Forall_forall in Fb1. apply Fb1. eapply nth_error_In; exact Kb.
     + unfold ovs1. rewrite map_length. exact Lr1.
-  - unfold ofin, ofout, oCo, onc, osaved, oneed; cbn [fs_ctl];
+  - unfold ofin, ofout, oCo, onc, osaved, oneed; cbn [fs_ctl fs_bufs fs_overlaps];
       cbn [FftFixedOut_nbr_channels FftFixedOut_chunk_size_out FftFixedOut_fft_size_in FftFixedOut_fft_size_out FftFixedOut_saved_frames
            FftFixedOut_frames_needed set_FftFixedOut_frames_needed set_FftFixedOut_saved_frames]. fold st fin fout Co nch nd sv.
-    repeat split; try reflexivity. rewrite P1s. unfold sv'. lia.
+    split; [rewrite P1s; unfold sv'; lia|]. split; [reflexivity|]. split; [reflexivity|]. split; [reflexivity|]. split; [reflexivity|].
+    split; [first [reflexivity | exact Epro]|]. split; [first [exact E1 | reflexivity]|].
+    split; [rewrite P1s; first [exact E2 | reflexivity]|]. split; [reflexivity|]. split; reflexivity.
+Qed.
+
+Theorem xo_call_safe (s : ST) wi wo m :
+  xo_wf s ->
+  @x_precheck CR SR (xo_mask_bad (fs_ctl s)) (xo_val_channels (fs_ctl s)) (xo_val_min_in (fs_ctl s))
+              (xo_val_min_out (fs_ctl s)) (fs_mask s) wi wo m = Ok tt ->
+  exists s' outs, @xo_pib CR SR unit_fn s wi wo m = Ok (s', (oneed s, oCo s), outs) /\ xo_wf s' /\
+                  osaved s' + oCo s = osaved s + (oneed s / ofin s) * ofout s /\
+                  ofin s' = ofin s /\ ofout s' = ofout s /\ oCo s' = oCo s /\ onc s' = onc s.
+Proof.
+  intros W Hpre. destruct (xo_call_stages s wi wo m W Hpre) as (s' & outs & mask & r1 & r2 & E & W' & H1 & H2 & H3 & H4 & H5 & _).
+  exists s', outs. split; [exact E|]. split; [exact W'|]. split; [exact H1|]. split; [exact H2|]. split; [exact H3|]. split; [exact H4|exact H5].
 Qed.
 
 End XO.
